@@ -17,6 +17,9 @@ COMPONENTS = {
              'slimta.cloudstorage.CloudStorage', 'slimta.bounce.Bounce',
              'slimta.envelope.Envelope', 'slimta.relay.Relay (base)',
              'gevent Pool/Event/Semaphore/Greenlet'],
+    'real_in_some_runs': ['slimta.relay.pipe.PipeRelay over a fake subprocess '
+                          'module (C01: 2 runs in 5, both per-recipient '
+                          'modes)'],
     'stub': ['SimLoop (event loop, clock)', 'SimFS (os/mkstemp/pyaio)',
              'SimRedis (redis client)', 'SimObjectStore/SimMsgQueue (aws.py '
              'method set)', 'ScriptRelay (scripted Relay subclass)'],
@@ -111,6 +114,14 @@ def generate(seed, prop, bias):
         'ops': [],
         'chunk_size': rng.choice([64, 256, 1024, 16384]),
     }
+    rk = rng.choice(bias.get('relays', ['script']))
+    if rk != 'script':
+        scn['relay'] = rk
+        if rk == 'pipe1':
+            # one process per message: single-recipient messages (what a
+            # RecipientSplit policy in front of such a relay produces)
+            for m in msgs:
+                m['rcpts'] = m['rcpts'][:1]
     if backend == 'cloud+mq':
         scn['mq_dup_every'] = rng.choice([0, 0, 2, 3])
         scn['poll_pause'] = rng.choice([0.5, 1.0, 5.0])
